@@ -254,6 +254,11 @@ def main(argv):
     seed = int(os.environ.get('VERIF_SEED', '20260930'))
     sys.path.insert(0, common.REPO)
     mod = importlib.import_module('harness.props.' + a.pid)
+    try:
+        from . import e2e
+        e2e.clean_cache(1500)        # bound the disk used by cached end-to-end runs (oldest first)
+    except Exception:
+        pass
     if a.replay:
         return replay(mod, a.replay)
     return run_property(mod, a.tier, seed)
